@@ -473,3 +473,59 @@ PROPS["C12"] = dict(
     assumptions=PAGE_STUBS,
     trusted=["page_layer.c visitor bookkeeping"],
 )
+
+
+# ------------------------------------------------------------------------------------------------
+# C20 (libc_opts.c)
+def lo_ob(id, entry, **kw):
+    if entry == "h_vsnprintf":
+        kw.setdefault("ub_notes", True)     # mi_out_alignright forms `start+len+extra` beyond the buffer before comparing it with `end` (never accessed)
+    kw.setdefault("unwind", 20)
+    kw.setdefault("timeout", 1200)
+    return O(id, "libc_opts.c", entry, **kw)
+
+
+MSG_REPL = {"_mi_warning_message": "stub_message", "_mi_verbose_message": "stub_message", "_mi_message": "stub_message", "_mi_trace_message": "stub_message"}
+ENV_LOOPS = ["mi_option_is_word_of.0:6", "mi_option_is_word_of.1:8", "_mi_strnicmp.0:8", "_mi_strlen.0:70", "_mi_strlcpy.0:66", "_mi_strlcat.0:66", "mi_option_init.0:66", "_mi_strnlen.0:66", "ref_strstr.0:16", "ref_strstr.1:16"]
+VSN_FUNCS = ["_mi_vsnprintf", "_mi_snprintf", "mi_out_num", "mi_outc", "mi_outs", "mi_out_fill", "mi_out_alignright"]
+
+
+def VSN_LOOPS(buf, digits, width):
+    return ["h_vsnprintf.%d:%d" % (i, 14) for i in range(8)] + ["h_vsnprintf.1:1200", "check_guard.0:1200"] + ["mi_outs.0:%d" % buf, "mi_out_fill.0:%d" % buf, "mi_out_alignright.0:%d" % buf,
+            "mi_out_alignright.1:%d" % buf, "mi_out_num.0:%d" % digits, "mi_out_num.1:%d" % (digits // 2 + 2)]
+
+
+def c20():
+    obs = [
+        lo_ob("C20.strl", "h_strl", funcs=["_mi_strlcpy", "_mi_strlcat", "_mi_strnlen", "_mi_strlen", "_mi_strnicmp", "_mi_toupper"], cost=30,
+              bounds="destination of 8 bytes, every dest_size 0..8, sources up to 11 characters"),
+        lo_ob("C20.vsnprintf.num2", "h_vsnprintf", defines=["FMTLEN=2"], unwind=4, unwindset=VSN_LOOPS(13, 22, 12), cost=120,
+              funcs=VSN_FUNCS, bounds="every 2-byte format without %s, three arbitrary 64-bit arguments, buffer sizes 0..12"),
+        lo_ob("C20.vsnprintf.num3", "h_vsnprintf", defines=["FMTLEN=3", "ARGMAX=65535"], unwind=5, unwindset=VSN_LOOPS(13, 7, 12), cost=200,
+              funcs=VSN_FUNCS, bounds="every 3-byte format without %s, arguments <= 65535, buffer sizes 0..12"),
+        lo_ob("C20.vsnprintf.str3", "h_vsnprintf", defines=["FMTLEN=3", "WITH_STRINGS"], unwind=5, unwindset=VSN_LOOPS(13, 22, 12), cost=200,
+              funcs=VSN_FUNCS, bounds="every 3-byte format, arguments are valid strings of <= 4 characters, buffer sizes 0..12"),
+        lo_ob("C20.vsnprintf.num4", "h_vsnprintf", defines=["FMTLEN=4", "POSTN=1100"], unwind=6, unwindset=VSN_LOOPS(13, 22, 12), cost=600, tier="thorough", timeout=3600,
+              funcs=VSN_FUNCS, bounds="every 4-byte format without %s, arbitrary 64-bit arguments, buffer sizes 0..12"),
+        lo_ob("C20.option_setget", "h_option_setget", unwind=4, unwindset=["h_option_setget.0:50", "h_option_setget.1:50"], replace=MSG_REPL,
+              funcs=["mi_option_set", "mi_option_get", "mi_option_get_clamp", "mi_option_is_enabled"], cost=20, bounds="every option index incl. out of range, every value"),
+        lo_ob("C20.out_buf", "h_out_buf", defines=["MI_MAX_DELAY_OUTPUT=64"], unwind=12, funcs=["mi_out_buf", "_mi_strlen", "_mi_memcpy"], cost=30,
+              bounds="delayed-output buffer compiled at 64 bytes (MI_MAX_DELAY_OUTPUT is an #ifndef knob), any fill level, messages up to 8 characters"),
+    ]
+    for name in ("mi_option_purge_delay", "mi_option_arena_reserve", "mi_option_verbose", "mi_option_eager_commit"):
+        obs.append(lo_ob("C20.option_env.%s" % name[10:], "h_option_env", defines=["OPT=%s" % name, "ENVLEN=6"], unwind=8, unwindset=ENV_LOOPS, replace=MSG_REPL, cost=200,
+                         funcs=["mi_option_init", "mi_option_get", "mi_option_set", "mi_option_get_size", "_mi_getenv", "_mi_strlcpy", "_mi_strlcat", "_mi_strnlen", "_mi_toupper", "mi_mul_overflow"],
+                         bounds="environment strings of up to 6 arbitrary characters for option %s" % name[10:]))
+    obs.append(lo_ob("C20.option_env.arena_reserve.L", "h_option_env", defines=["OPT=mi_option_arena_reserve", "ENVLEN=22"], unwind=24, unwindset=ENV_LOOPS, replace=MSG_REPL, cost=600, tier="thorough", timeout=3600,
+                     funcs=["mi_option_init", "mi_option_get_size"], bounds="environment strings of up to 22 characters (decimal overflow range) for arena_reserve"))
+    return obs
+
+
+PROPS["C20"] = dict(
+    obligations=c20,
+    bounds="format strings of 3 (5 thorough) arbitrary bytes, buffer sizes 0..12; environment values of up to 6 (22 thorough) arbitrary characters; all option indices",
+    outside="mi_stats_get_json / mi_stats_print end to end (hundreds of snprintf calls; their primitives are covered); environment strings longer than the bound (the 64-byte getenv buffer contract is asserted)",
+    assumptions=["_mi_prim_getenv returns an arbitrary NUL-terminated string within the bound (or nothing)", "strtol/strstr: reference implementations inside the harness",
+                 "output sinks are empty stubs"],
+    trusted=["libc_opts.c reference grammar evaluator"],
+)
